@@ -91,6 +91,10 @@ func TestC17(t *testing.T) {
 func TestC14(t *testing.T) {
 	runProp(t, "C14", func(t *rapid.T) *core.Case {
 		c := drawFaultCase(t)
+		if c.Step > 0 && rapid.IntRange(0, 2).Draw(t, "longer") == 0 {
+			// more batches than the exchange buffers hold
+			c.End = c.Start + int64(rapid.IntRange(31, 70).Draw(t, "moresteps"))*c.Step
+		}
 		if rapid.IntRange(0, 3).Draw(t, "deadline") == 0 {
 			c.Delay = 1
 		}
